@@ -83,7 +83,7 @@ func (e *Engine) yield() {
 		if me.runnable {
 			return
 		}
-		panic(pathEnd{"DEADLOCK: all goroutines blocked"})
+		e.panicObligation("PANIC deadlock: all goroutines are blocked")
 	}
 	s.cur = next
 	next.resume <- struct{}{}
